@@ -3,7 +3,7 @@
 const R = require('../lib/rspace');
 const { stable } = require('../lib/canon');
 
-const NAMES = ['a', 'b', 'update:x', 'c-d'];
+const NAMES = ['a', 'b', 'update:x', 'c-d', 'constructor'];
 const q = (n) => `'${n}'`;
 const key = (n) => (/^[a-z]+$/.test(n) ? n : q(n));
 const sig = (n, extra) => `(e: ${q(n)}${extra ? ', v: number' : ''}): void`;
